@@ -205,7 +205,7 @@ static void handler(const unsigned char *req, size_t n, vbuf *resp, void *user) 
 	memset(&e, 0, sizeof e);
 	e.version = r.version; e.kind = RP_AGGR; e.login = LOGIN; e.mac_alg = RH_SHA256; e.key = KEY; e.keylen = strlen(KEY);
 	vb_init(&body); vb_init(&payload); vb_init(&one);
-	rp_aggregate(&sig, r.hash, r.hash_len, level, 0, 1, 1700000000ULL, 1700000000ULL + 86400 * 3);
+	rp_aggregate(&sig, r.hash, r.hash_len, level, 0, 0, 1700000000ULL, 1700000000ULL + 86400 * 3);
 	sig.ch[0].links[0].level_corr -= level;
 	rp_sig_body(&sig, &body);
 	rp_aggr_resp_payload(&payload, e.version, r.req_id, 1, 0, NULL, body.p, body.n);
@@ -484,15 +484,17 @@ static int code_next(char *code, size_t len, const char *alpha) {
 	return 0;
 }
 
-static int sample_budget = 3;
+static int sampled[16];
+#define SAMPLE(i, ...) do { if (!sampled[i]) { sampled[i] = 1; vf_sample(__VA_ARGS__); } } while (0)
 static void rx_short_stream(const int *kinds, int nk) {
 	size_t n = stream_size(kinds, nk);
-	size_t full3 = VF_THOROUGH ? 10 : 7;
+	size_t full3 = VF_THOROUGH ? 9 : 7;      /* full ternary enumeration up to this stream length */
 	const char *alphas[3] = {"01", "02", "012"};
 	int a;
 	char code[32];
 	for (a = 0; a < 3; a++) {
 		if (a == 2 && n > full3) continue;
+		if (a == 1 && n > 12) continue;                  /* 13..14 bytes: every composition, without the would-block variant */
 		memset(code, '0', sizeof code); code[n - 1] = 0;
 		do {
 			vbuf st;
@@ -504,7 +506,7 @@ static void rx_short_stream(const int *kinds, int nk) {
 			vb_init(&st);
 			build_stream(&st, kinds, nk);
 			nwb = code_to_script(&CS[0].rx, code, n);
-			if (sample_budget > 0 && a == 2) { sample_budget--; vf_sample("rx stream k%s (%zu bytes) boundary code %s (1 = chunk boundary, 2 = boundary + would-block)", stream_name(kinds, nk), n, code); }
+			if (a == 2) SAMPLE(0, "%s: transport object, stream of PDU kinds %s (%zu bytes), boundary code %s (1 = chunk boundary, 2 = boundary + would-block)", vf_case_name(), stream_name(kinds, nk), n, code);
 			rx_exec(&st, nwb, 0, NULL);
 			vb_free(&st);
 			vf_case_end(1);
@@ -599,6 +601,7 @@ static void part_rxc(void) {
 				int kinds[3], nk = 0, k2[2], nk2 = 0;
 				if (wb && plen == 0) continue;
 				if (!vf_case_begin("rxc:f%d:p%d.%zu:s%d:%s:wb%d", f, PART[p], plen, s, ANAME[act], wb)) continue;
+				SAMPLE(1, "%s: whole PDUs + %zu bytes of one more, then peer %s; next request on a fresh connection with its own stream", vf_case_name(), plen, ANAME[act]);
 				env_install();
 				if (FIRST[f][0] >= 0) kinds[nk++] = FIRST[f][0];
 				if (FIRST[f][1] >= 0) kinds[nk++] = FIRST[f][1];
@@ -685,6 +688,62 @@ static void part_tx(void) {
 					vf_case_end(1);
 				} while (total > 1 && code_next(code, (size_t)total - 1, lim ? "01" : "012"));
 			}
+		}
+	}
+}
+
+/* connection lost while a tiny request is half written (send error at every byte offset, or the peer closes after a would-block):
+ * whatever was not written completely travels again, whole, on a fresh connection */
+static void part_txf(void) {
+	static const int SETS[][4] = {{5, 0, 0, 0}, {2, 5, 0, 0}, {3, 4, 0, 0}, {2, 2, 3, 0}, {10, 0, 0, 0}};
+	static const int ACTS[] = {A_RESET, A_PIPE, A_EINTR, A_CLOSE};
+	int s, ai;
+	size_t off;
+	for (s = 0; s < 5; s++) for (ai = 0; ai < 4; ai++) {
+		int ns = 0, total = 0;
+		while (ns < 4 && SETS[s][ns]) { total += SETS[s][ns]; ns++; }
+		for (off = 0; off < (size_t)total; off++) {
+			KSI_CTX *ctx;
+			KSI_AsyncClient *c;
+			KSI_AsyncHandle *h[4];
+			unsigned char raw[16];
+			int i, round, res, closed = 0;
+			size_t j;
+			long steps = 0;
+			if (ACTS[ai] == A_CLOSE && off == 0) continue;
+			if (!vf_case_begin("txf:s%d.%d.%d:%s:off%zu", SETS[s][0], SETS[s][1], SETS[s][2], ANAME[ACTS[ai]], off)) continue;
+			SAMPLE(2, "%s: tiny requests, connection lost at output offset %zu (%s); the rest must travel whole on a fresh connection", vf_case_name(), off, ANAME[ACTS[ai]]);
+			env_install();
+			req_reset();
+			ctx = dctx();
+			c = dc_new(ctx, 100);
+			for (i = 0; i < ns; i++) {
+				for (j = 0; j < (size_t)SETS[s][i]; j++) raw[j] = (unsigned char)(0x11 * (i + 1) + 0x20 * (int)j + 0x80 * (j == 0));
+				h[i] = dc_add(ctx, c, raw, (size_t)SETS[s][i]);
+				vb_put(&REQ[i], raw, (size_t)SETS[s][i]);
+			}
+			nreq = ns;
+			if (ACTS[ai] == A_CLOSE) { ev_add(&CS[0].tx, off, A_WB, 0); ev_add(&CS[0].rx, 0, A_CLOSE, off); }
+			else ev_add(&CS[0].tx, off, ACTS[ai], 0);
+			hook_budget = 200;
+			for (round = 0; round < 6; round++) {
+				res = c->dispatch(c->clientImpl); steps++;
+				if (res == KSI_ASYNC_CONNECTION_CLOSED) closed++;
+				else if (res != KSI_OK) vf_fail("dispatch-error", "dispatch returned 0x%x", res);
+			}
+			if (spin) vf_fail("spin", "more than %ld socket calls", hook_budget);
+			if (!closed) vf_fail("close-not-reported", "the connection failed (%s at output offset %zu) but dispatch never reported it", ANAME[ACTS[ai]], off);
+			if (sn_nconn != 2) vf_fail("no-fresh-connection", "%d connections after one failure", sn_nconn);
+			else if (sn_conns[0].state != SN_CLOSED_BY_CLIENT) vf_fail("socket-not-closed", "the failed connection was not closed");
+			if (wire_check("txf") == 0) {
+				for (i = 0; i < ns; i++) if (sent_on[i] < 0 && h[i]->state != KSI_ASYNC_STATE_ERROR)
+					vf_fail("request-lost", "request %d never travelled whole on any connection and is not in the error state (state %d)", i, h[i]->state);
+			}
+			vf_outcome("txf:%s:%s", ANAME[ACTS[ai]], sn_nconn == 2 ? "reconnected" : "other");
+			KSI_AsyncClient_free(c);
+			for (i = 0; i < ns; i++) KSI_AsyncHandle_free(h[i]);
+			count_env(steps);
+			vf_case_end(1);
 		}
 	}
 }
@@ -887,6 +946,7 @@ static void e2e_tx_case(int n, int hold, size_t a, size_t b, int wb) {
 	scen_t sc = {n, 0, hold, 1, 40, "e2e:tx"};
 	if (b) { if (!vf_case_begin("e2e:tx:n%d:hold%d:cut%zu,%zu:wb%d", n, hold, a, b, wb)) return; }
 	else if (!vf_case_begin("e2e:tx:n%d:hold%d:cut%zu:wb%d", n, hold, a, wb)) return;
+	SAMPLE(6, "%s: async service, %d requests, partial sends cut at output offsets %zu/%zu, would-block mode %d, server %s", vf_case_name(), n, a, b, wb, hold ? "answers after the last request" : "answers each request at once");
 	env_install();
 	/* wb: 0 short counts only, 1 would-block at every cut, 2 would-block twice at the first cut */
 	ev_add(&CS[0].tx, a, wb ? A_WB : A_CUT, 0);
@@ -906,15 +966,15 @@ static void part_e2e(void) {
 	int n, wb, hold;
 	size_t a, b;
 	for (n = 1; n <= 3; n++) for (wb = 0; wb < 2; wb++) {
-		size_t len = (size_t)n * P_SZ, stride = VF_THOROUGH ? (n == 1 ? 1 : 7) : (n == 1 ? 13 : 37);
+		size_t len = (size_t)n * P_SZ;
 		for (a = 1; a < len; a++) e2e_rx_case(n, a, 0, wb);
-		/* 2-cuts: every pair for one response (thorough); otherwise pairs among the offsets next to PDU boundaries / headers plus a stride */
+		/* 2-cuts. thorough: every pair for 1..2 responses and for 3 responses without would-block; with would-block on 3 responses the pairs
+		 * touching a PDU boundary (+-6) and every third other pair. quick: every pair on one response, boundary pairs + a stride otherwise */
 		for (a = 1; a < len; a++) for (b = a + 1; b < len; b++) {
 			int keep;
-			if (n == 1 && VF_THOROUGH) keep = 1;
-			else keep = (boundary_near(a, P_SZ, n, 5) && boundary_near(b, P_SZ, n, 5)) || (a % stride == 1 && b % stride == 2);
-			if (wb && !(n == 1 && VF_THOROUGH ? (a % 3 == 1) : 1)) keep = 0;
-			if (!VF_THOROUGH && wb && !boundary_near(a, P_SZ, n, 2)) keep = 0;
+			if (VF_THOROUGH) keep = n < 3 || wb == 0 || boundary_near(a, P_SZ, n, 6) || boundary_near(b, P_SZ, n, 6) || (a + b) % 3 == 0;
+			else if (n == 1) keep = wb == 0 || a % 3 == 1;
+			else keep = (boundary_near(a, P_SZ, n, 4) && boundary_near(b, P_SZ, n, 4)) || (a % 17 == 1 && b % 13 == 2);
 			if (keep) e2e_rx_case(n, a, b, wb);
 		}
 	}
@@ -941,8 +1001,8 @@ static void part_flt(void) {
 		scen_t sc = {n1, 2, 0, 1, 50, NULL};
 		char cls[48];
 		if (arm == 0 && off != 0) continue;            /* later offsets are reached only after the requests were written anyway */
-		if (!VF_THOROUGH && n1 == 2 && !(off % 5 == 0 || boundary_near(off, P_SZ, 2, 4))) continue;
 		if (!vf_case_begin("flt:rx:%s:n%d:off%zu:arm%d", ANAME[RXACT[ai]], n1, off, arm)) continue;
+		SAMPLE(4, "%s: async service, %d outstanding requests, recv answers %s at offset %zu of the response stream, then 2 later requests", vf_case_name(), n1, ANAME[RXACT[ai]], off);
 		env_install();
 		snprintf(cls, sizeof cls, "flt:rx:%s", ANAME[RXACT[ai]]); sc.cls = cls;
 		ev_add(&CS[0].rx, off, RXACT[ai], arm ? RO[n1] : 0);
@@ -954,8 +1014,8 @@ static void part_flt(void) {
 		scen_t sc = {n1, 2, hold, 1, 50, NULL};
 		char cls[48];
 		if (n1 == 1 && hold) continue;
-		if (!VF_THOROUGH && n1 == 2 && !(off % 3 == 0 || req_boundary_near(off, 2, 4))) continue;
 		if (!vf_case_begin("flt:tx:%s:n%d:hold%d:off%zu", ANAME[TXACT[ai]], n1, hold, off)) continue;
+		SAMPLE(3, "%s: async service, %d real requests, send answers %s at output offset %zu, then 2 later requests", vf_case_name(), n1, ANAME[TXACT[ai]], off);
 		env_install();
 		snprintf(cls, sizeof cls, "flt:tx:%s", ANAME[TXACT[ai]]); sc.cls = cls;
 		ev_add(&CS[0].tx, off, TXACT[ai], 0);
@@ -967,7 +1027,6 @@ static void part_flt(void) {
 		scen_t sc = {n1, 2, 0, 1, 50, NULL};
 		char cls[48];
 		if (off == RO[1]) continue;
-		if (!VF_THOROUGH && !(off % 4 == 1 || req_boundary_near(off, 2, 3))) continue;
 		if (!vf_case_begin("flt:mid:%s:n%d:off%zu", ANAME[RXACT[ai]], n1, off)) continue;
 		env_install();
 		snprintf(cls, sizeof cls, "flt:mid:%s", ANAME[RXACT[ai]]); sc.cls = cls;
@@ -988,6 +1047,7 @@ static void part_flt(void) {
 		if (m == 2 && clock == 0) continue;                                  /* a timeout needs a moving clock */
 		if ((m == 5 || m == 6) && clock == 1 && KS[k] > 9) continue;          /* slower than the configured timeouts: covered by "never" */
 		if (!vf_case_begin("flt:conn:%s%d:n%d:clk%d", MN[m], param, n1, clock)) continue;
+		SAMPLE(5, "%s: connection establishment answer '%s' (parameter %d), virtual clock %s", vf_case_name(), MN[m], param, clock ? "advances 1 s per idle round" : "frozen");
 		env_install();
 		snprintf(cls, sizeof cls, "flt:conn:%s", MN[m]); sc.cls = cls;
 		CS[0].cmode = MM[m]; CS[0].cparam = param;
@@ -1086,8 +1146,7 @@ static void part_blk(void) {
 		vf_case_end(1);
 	}
 	for (a = 1; a < BP_SZ; a++) for (b = a + 1; b < BP_SZ; b++) {
-		if (!VF_THOROUGH && !((a < 7 && b < 9) || (a % 23 == 1 && b % 19 == 3))) continue;
-		if (VF_THOROUGH && !((a < 8) || (a % 2 == 1))) continue;
+		if (!VF_THOROUGH && !((a < 7 && b < 9) || (a % 5 == 1 && b % 7 == 3))) continue;
 		if (!vf_case_begin("blk:rx:cut%zu,%zu", a, b)) continue;
 		env_install();
 		ev_add(&CS[0].rx, a, A_CUT, 0); ev_add(&CS[0].rx, b, A_CUT, 0);
@@ -1098,6 +1157,7 @@ static void part_blk(void) {
 		char cls[40];
 		if (a == BP_SZ && RXACT[ai] != A_CLOSE) continue;
 		if (!vf_case_begin("blk:rxf:%s:off%zu", ANAME[RXACT[ai]], a)) continue;
+		SAMPLE(7, "%s: blocking client, recv answers %s after %zu of %zu response bytes; then a second request", vf_case_name(), ANAME[RXACT[ai]], a, BP_SZ);
 		env_install();
 		snprintf(cls, sizeof cls, "blk:rxf:%s", ANAME[RXACT[ai]]);
 		ev_add(&CS[0].rx, a, RXACT[ai], BR_SZ);
@@ -1136,6 +1196,7 @@ static void run(void) {
 	PART("flt", part_flt);
 	PART("blk", part_blk);
 	PART("e2e", part_e2e);
+	PART("txf", part_txf);
 	PART("tx", part_tx);
 	PART("rx", part_rx);
 }
